@@ -22,6 +22,33 @@ def matrix(cfgname):
     return [x for x in out if "forgery" in x], res
 
 
+def id_case(rec, cfg, agent, op, which):
+    """an otherwise authentic reply (valid MAC, right security level) whose msgID / request-id is foreign: never accepted"""
+    a = rec.n
+    s = rawdrv.RawSession(rec, cfg)
+    base = "1.3.6.1.2.1.2.2.1"
+    if op == "get":
+        w, _ = s.send("get", [base + ".1.0"])
+    else:
+        w, _ = s.send("getnext", [base])
+    if w is not None:
+        req = ag.Request(cfg, w)
+        vbs = [(bytes(n) + (bytes([1]) if op == "getnext" else b""), ("int", 4242)) for n in req.names]
+        other = ag.other_id({req.reqid, req.msgid})
+        if which == "msgid":
+            d = agent.reply(cfg, req, vbs, msgid=other)
+        elif which == "reqid":
+            d = agent.reply(cfg, req, vbs, reqid=other)
+        elif which == "report-msgid":
+            d = agent.report(cfg, req, msgid=other)
+        else:
+            d = agent.reply(cfg, req, vbs, msgid=other, reqid=ag.other_id({req.reqid, req.msgid, other}))
+        s.inject(d)
+        s.recv(op)
+    s.close()
+    return a, rec.n
+
+
 def case(rec, cfg, agent, op, f):
     a = rec.n
     s = rawdrv.RawSession(rec, cfg)
@@ -81,6 +108,12 @@ def run(tier):
                 authentic = f["mac"] == "valid" and f["flagAuth"] and f["enc"] == ("ok" if std[cn].priv != "none" else "plain")
                 runs.append((a, b, dict(cfg=cn, op=op, forgery=f, verdict=c["verdict"])))
                 chk.case((cn, op, json.dumps(f, sort_keys=True)), nontrivial=not authentic)
+        for which in ("msgid", "reqid", "report-msgid", "both"):
+            for op in ("get", "getnext"):
+                a, b = id_case(rec, std[cn], agent, op, which)
+                runs.append((a, b, dict(cfg=cn, op=op, forgery=dict(mac="valid", flagAuth=True, enc="ok" if std[cn].priv != "none" else "plain",
+                                                                     pdu="report" if which.startswith("report") else "response", ids=which), verdict="drop")))
+                chk.case((cn, op, "ids", which))
     rec.close()
     print("  %d cases, %d events" % (len(runs), rec.n), flush=True)
     v = trace.validate_parallel("TraceSession.tla", "TraceSession.cfg", rec.events, [(a, b) for a, b, _ in runs], k=12, name="c10")
@@ -95,6 +128,10 @@ def run(tier):
         ev = rec.events[idx]
         f = info["forgery"]
         has_priv = std[info["cfg"]].priv != "none"
+        if "ids" in f:
+            chk.violation(dict(kind="foreign-ids", ids=f["ids"], got="value" if not ev.get("exc") else ev["exc"]),
+                          "%s %s: authentic-looking reply with foreign %s was not skipped: call returned %s" % (info["cfg"], info["op"], f["ids"], ev.get("exc") or "the value"), dict(info=info))
+            continue
         sig = dict(body=f["pdu"], mac=f["mac"], flagAuth=f["flagAuth"], clear_under_priv=bool(has_priv and f["enc"] == "plain"),
                    undecryptable=f["enc"] == "bad", required=info["verdict"], got="value" if not ev.get("exc") else ev["exc"])
         chk.violation(sig, "%s %s: reply with mac=%s flagAuth=%s msgData=%s body=%s must be %s; call returned %s" % (info["cfg"], info["op"], f["mac"], f["flagAuth"], f["enc"], f["pdu"],
